@@ -141,7 +141,27 @@ theorem prios_follow_elements (hI : Lawful I) (a b t : Tree T) (k : Nat) (it : T
     prios (insertAt I t k it p) = (prios t).take k ++ p :: (prios t).drop k :=
   ⟨prios_merge I a b, (prios_splitAt I hI t k h).1, (prios_splitAt I hI t k h).2, prios_insertAt I hI t k it p h⟩
 
+/-- **Why the height half is about subsequences of the draws** (wave 3, seeded C16_m10). A priority list that is
+    strictly monotone has a path as its Cartesian tree: height = number of elements. -/
+theorem monotone_prios_path (ps : List Nat) (h : ps.Pairwise (· < ·) ∨ ps.Pairwise (· > ·)) :
+    height (cartShape ps) = ps.length := by
+  cases h with
+  | inl h => exact (cartShape_increasing ps h).1
+  | inr h => exact (cartShape_decreasing ps h).1
+
+/-- … hence, after **any** history, a live treap whose in-order priorities are strictly monotone is a path — whatever
+    the operations were. Together with `history_shape` (the in-order priorities are those of the elements, which keep the
+    priority drawn at their creation): the logarithmic-height claim is exactly a claim about the priorities of the
+    nodes that end up in one treap, i.e. about SUBSEQUENCES of the thread's stream of draws (every k-th draw when k
+    treaps are filled round-robin, or when scratch nodes are created in between). The harness measures it on those. -/
+theorem history_monotone_path (ops : List (Op E M V)) (r : List (Tree T) × List (Obs E G))
+    (h : runM I [] ops = some r) (t : Tree T) (ht : t ∈ r.1)
+    (hm : (prios t).Pairwise (· < ·) ∨ (prios t).Pairwise (· > ·)) : height t = (prios t).length := by
+  rw [(history_shape_trees I ops r h t ht).2]
+  exact monotone_prios_path _ hm
+
 /-! ### non-vacuity -/
+
 
 -- a heap-ordered tree with ties, produced by the model's own `merge`
 example : Heap (merge sumAdd (single (sumAdd.new 3) 5) (merge sumAdd (single (sumAdd.new 8) 2) (single (sumAdd.new 1) 2))) :=
@@ -164,5 +184,16 @@ example : ∃ a b : Tree Unit, Heap a ∧ Heap b ∧ prios a = prios b ∧ a ≠
 -- a history exists (the hypothesis of `heap_history` is satisfiable)
 example : (runM (G := Nat × Int) sumAdd [] [.item 1 7, .item 5 3, .merge 0 1, .tag 0 10, .splitAt 0 1]).isSome = true := by
   simp [runM, stepM]
+
+-- monotone priorities give paths (both directions); a non-monotone list of the same length does not
+example : height (cartShape [3, 5, 8, 13, 21]) = 5 := monotone_prios_path _ (Or.inl (by decide))
+example : height (cartShape [21, 13, 8, 5, 3]) = 5 := monotone_prios_path _ (Or.inr (by decide))
+example : height (cartShape [8, 3, 21, 5, 13]) = 3 := by decide
+-- three appends with increasing priorities through the model's own `merge`: a path of height 3
+example : height (merge sumAdd (merge sumAdd (single (sumAdd.new 1) 2) (single (sumAdd.new 5) 3)) (single (sumAdd.new 7) 9)) = 3 := by
+  have hp : prios (merge sumAdd (merge sumAdd (single (sumAdd.new 1) 2) (single (sumAdd.new 5) 3)) (single (sumAdd.new 7) 9)) = [2, 3, 9] := by
+    simp [prios_merge, single, prios]
+  rw [(shape_canonical_ties _ (heapR_merge _ _ _ (heapR_merge _ _ _ (HeapR_single _ _) (HeapR_single _ _)) (HeapR_single _ _))).2, hp]
+  exact monotone_prios_path _ (Or.inl (by decide))
 
 end Rlib.C16
